@@ -86,8 +86,4 @@ theorem format_agp_source_valid_strict (a : Assembly) (hs : ∀ s ∈ a.scaffold
 example : (∀ s ∈ demo.scaffolds, ∀ r ∈ s.rows, StrandOk r) ∧ (∀ s ∈ demo.scaffolds, ∀ r ∈ s.rows, RowStrict r) := by
   decide
 
-#print axioms format_agp_is_source
-#print axioms format_agp_source_valid
-#print axioms format_agp_source_valid_strict
-
 end AgpTpf.C06
